@@ -649,6 +649,7 @@ func ioOpenFile(L *LState) int {
 		readable = false
 	case "a", "ab":
 		mode = os.O_WRONLY | os.O_APPEND | os.O_CREATE
+		readable = false
 	case "r+", "rb+", "r+b":
 		mode = os.O_RDWR
 	case "w+", "wb+", "w+b":
